@@ -7307,7 +7307,13 @@ func (p *parser) parseStmt(opts parseStmtOpts) js_ast.Stmt {
 						defaultName = createDefaultName()
 					}
 				default:
-					panic("Internal error")
+					// This is reachable after a syntax error has been reported, e.g. for
+					// "@x export default @y {}" where the statement after the misplaced
+					// decorator is not a class. Don't turn that into an internal error.
+					if !p.log.HasErrors() {
+						panic("Internal error")
+					}
+					return js_ast.Stmt{Loc: loc, Data: js_ast.STypeScriptShared}
 				}
 				return js_ast.Stmt{Loc: loc, Data: &js_ast.SExportDefault{DefaultName: defaultName, Value: stmt}}
 			}
